@@ -549,6 +549,12 @@ func (m *Manager) DeallocateNAT(privateIP net.IP) error {
 
 	privKey := ipToKey(ip4)
 
+	// Hold the pool lock for the whole release (same order as AllocateNAT: poolMu, then
+	// allocationMu). Otherwise the block can be handed to another subscriber while this
+	// release is still in flight, before its log record is written.
+	m.poolMu.Lock()
+	defer m.poolMu.Unlock()
+
 	m.allocationMu.Lock()
 	allocation, ok := m.allocations[privKey]
 	if !ok {
@@ -566,11 +572,9 @@ func (m *Manager) DeallocateNAT(privateIP net.IP) error {
 	}
 
 	// Update pool count
-	m.poolMu.Lock()
 	if allocation.PoolIndex < len(m.pool) {
 		m.pool[allocation.PoolIndex].Subscribers--
 	}
-	m.poolMu.Unlock()
 
 	// Log deallocation event
 	if m.natLogger != nil {
